@@ -12,6 +12,7 @@ type Clock struct {
 	reads int   // readings since the clock last moved (livelock guard)
 }
 
+//go:norace
 func newClock(w *World, r *Rng) *Clock {
 	// a seed-chosen instant in 2023..2033 (above the snowflake epoch, 2010)
 	base := int64(1672531200) + int64(r.Intn(10*365*24*3600))
@@ -19,12 +20,18 @@ func newClock(w *World, r *Rng) *Clock {
 }
 
 // NowNS returns the current simulated time without advancing it.
+//
+//go:norace
 func (c *Clock) NowNS() int64 { return c.ns }
 
 // Unix returns the current simulated second without advancing the clock.
+//
+//go:norace
 func (c *Clock) Unix() int64 { return c.ns / 1e9 }
 
 // Read is what time.Now() in the system under test resolves to.
+//
+//go:norace
 func (c *Clock) Read() time.Time {
 	Yield("clock")
 	t := time.Unix(0, c.ns)
@@ -44,6 +51,8 @@ func (c *Clock) Read() time.Time {
 }
 
 // Advance moves the clock forward (or backward for negative d).
+//
+//go:norace
 func (c *Clock) Advance(d time.Duration) {
 	c.ns += int64(d)
 	c.reads = 0
@@ -54,6 +63,8 @@ func (c *Clock) Advance(d time.Duration) {
 }
 
 // SetUnix jumps to an absolute second (keeping the sub-second part).
+//
+//go:norace
 func (c *Clock) SetNS(ns int64) {
 	c.Advance(time.Duration(ns - c.ns))
 }
